@@ -34,6 +34,9 @@ func runC15(r *an.Run) {
 		everyParsedFileReachesApply(r, m, "R5-every-discovered-file-is-handed-to-the-patches")
 	}
 	c15LogicalPaths(r, "R4-argument-normalisation")
+	// a discovered file is handed to the patches as they were compiled: nothing that happens to one file
+	// (a change that failed on it) is remembered in the compiled patch and makes it skip the files after it
+	compiledProgramReadOnly(r, "R6-the-compiled-patch-does-not-remember-earlier-files")
 }
 
 func walkCallback(r *an.Run) (f, clo *ssa.Function, walk ssa.CallInstruction) {
